@@ -55,7 +55,7 @@ func prefixConstsIn(p *core.Prog, fns []*ssa.Function) map[string]bool {
 }
 
 func runC03(p *core.Prog, r *core.Report) {
-	r.Explain = "Decides only that the search indexes are maintained consistently, not what a query returns: (R1) every key class the put side writes for an object (object id, attribute→id plain and integer, id→attribute) is a class the delete side removes; (R2) writer, deleter and query side decide 'this attribute value is an integer' with the same parser (signed256.ParseDecimal), the writer indexes an integer only when that parser accepted it, and the deleter asks the parser for EVERY attribute it removes (no path through its loop skips the integer-key clean-up); (R3) the integer value length used to build and to cut keys is one constant; (R4) filtered and unfiltered search yield only through the status check (rule shared with C01); (R5) in the filter matcher a remembered integer parse is reused only for the stored value it was parsed from (the 'already parsed' flag starts false and is not carried around a loop that fetches a new stored value).; (R6) in the ordered scan of the primary attribute a mismatch ends the search only for operators whose failure is monotone in the key order — never for NUM_GT, NUM_GE, STRING_NOT_EQUAL. Not covered: filter semantics, ordering, cursor continuation across pages — all functions of attribute values; no sound static argument is in reach."
+	r.Explain = "Decides only that the search indexes are maintained consistently, not what a query returns: (R1) every key class the put side writes for an object (object id, attribute→id plain and integer, id→attribute) is a class the delete side removes; (R2) writer, deleter and query side decide 'this attribute value is an integer' with the same parser (signed256.ParseDecimal), the writer indexes an integer only when that parser accepted it, and the deleter asks the parser for EVERY attribute it removes (no path through its loop skips the integer-key clean-up); (R3) the integer value length used to build and to cut keys is one constant; (R4) filtered and unfiltered search yield only through the status check (rule shared with C01); (R5) in the filter matcher a remembered integer parse is reused only for the stored value it was parsed from (the 'already parsed' flag starts false and is not carried around a loop that fetches a new stored value).; (R6) in the ordered scan of the primary attribute a mismatch ends the search only for operators whose failure is monotone in the key order — never for NUM_GT, NUM_GE, STRING_NOT_EQUAL; (R7) the start key of the scan is obtained by Base58/HEX-decoding the filter text only when the filter is not a COMMON_PREFIX one or the text is the complete value. Not covered: filter semantics, ordering, cursor continuation across pages — all functions of attribute values; no sound static argument is in reach."
 	put := p.Func(mb + "PutMetadataForObject")
 	del := p.Func(mb + "deleteMetadata")
 	if put == nil || del == nil {
@@ -151,6 +151,46 @@ func runC03(p *core.Prog, r *core.Report) {
 	// ---------------- R6 a lower-bound mismatch never ends the scan
 	r6 := r.Rule("C03.R6", "in the ordered scan of the primary attribute a filter mismatch ends the search only for operators whose failure is monotone: never for NUM_GT, NUM_GE or STRING_NOT_EQUAL (a value below a lower bound says nothing about the following keys)", 1)
 	mismatchStopsOnlyMonotone(p, r, r6)
+	// ---------------- R7 the start position of a PREFIX scan
+	r7 := r.Rule("C03.R7", "PreprocessSearchQuery turns the primary filter's text into a start key with Base58/HEX decoding only when the filter is not a COMMON_PREFIX one or the text is the whole value: a cut text is not a prefix of the binary form", 2)
+	if pq := p.Func("pkg/core/object.PreprocessSearchQuery"); pq == nil {
+		r.Fatalf("C03.R7: PreprocessSearchQuery not found")
+	} else {
+		prefK, _ := p.ConstInt("github.com/nspcc-dev/neofs-sdk-go/object.MatchCommonPrefix")
+		gs := []core.Guard{
+			{Name: "not-a-prefix-filter", Pure: true, Comps: []core.Comp{{Result: -1, Kind: core.IsFalse}}, Value: func(_ *ssa.Function, v ssa.Value) bool {
+				bo, ok := v.(*ssa.BinOp)
+				if !ok || bo.Op != token.EQL || !strings.HasSuffix(bo.X.Type().String(), "object.SearchMatchType") {
+					return false
+				}
+				k, isK := intConstOf(bo.Y)
+				return isK && k == prefK
+			}},
+			{Name: "text-is-the-whole-value", Pure: true, Comps: []core.Comp{{Result: -1, Kind: core.IsFalse}}, Match: func(s core.Site) bool {
+				cal := core.StaticCallee(s.Call)
+				if cal == nil || cal.Blocks == nil || core.FuncPkg(cal) != core.FuncPkg(pq) || cal.Signature.Results().Len() != 1 || cal.Signature.Results().At(0).Type().String() != "bool" {
+					return false
+				}
+				// a predicate of the package that itself decodes the text (to compare its length / validity)
+				return len(core.CallSites([]*ssa.Function{cal}, func(x core.Site) bool {
+					return strings.HasSuffix(x.Name, "base58.Decode") || x.Name == "encoding/hex.DecodeString"
+				})) > 0
+			}},
+		}
+		core.CheckEffectsFn(p, r7, pq, core.EffectRule{Min: 2, Guards: gs, Derived: []core.Derived{{Name: "decoding-keeps-the-prefix-relation", Alts: [][]string{{"not-a-prefix-filter"}, {"text-is-the-whole-value"}}}},
+			Need: func(string) []string { return []string{"decoding-keeps-the-prefix-relation"} },
+			Effect: func(_ *core.Prog, in ssa.Instruction) (string, bool) {
+				c, ok := in.(ssa.CallInstruction)
+				if !ok {
+					return "", false
+				}
+				n := core.CalleeName(c)
+				if strings.HasSuffix(n, "base58.Decode") || n == "encoding/hex.DecodeString" {
+					return "start key from " + n[strings.LastIndex(n, "/")+1:], true
+				}
+				return "", false
+			}})
+	}
 }
 
 // mismatchStopsOnlyMonotone: see C03.R6.
